@@ -14,7 +14,9 @@ use graaf::{
 use serde::{Deserialize, Serialize};
 use std::collections::BTreeSet;
 use vmodel::dg::{Dg, WDg};
-use vmodel::gen::{draw_cpu, draw_density, near_semicomplete, random_dg, random_tournament, random_vertex_set};
+use vmodel::gen::{
+    draw_cpu, draw_density, near_semicomplete, random_dg, random_tournament, random_vertex_set, tournament_with_paired_defects,
+};
 use vmodel::rng::Rng;
 
 pub struct C12;
@@ -299,7 +301,15 @@ impl Lane for C12 {
         } else {
             draw_order(rng, max)
         };
-        let mut d = draw_near_miss(rng, n);
+        let mut d = if n >= 3 && (n % 64 == 0 && rng.chance(1, 2) || rng.chance(1, 30)) {
+            // size-preserving defects confined to one residue class of the column index
+            let ds: Vec<usize> = [1usize, 2, 8, 16, 32, 64, 128, 192].iter().copied().filter(|&x| x < n).collect();
+            let dist = *rng.pick(&ds);
+            let k = rng.range(1, 2);
+            tournament_with_paired_defects(rng, n, dist, k)
+        } else {
+            draw_near_miss(rng, n)
+        };
         if rng.chance(1, 3) {
             let ids = random_vertex_set(rng, n, 3 * max);
             d = relabel(&d, &ids);
